@@ -88,6 +88,7 @@ type Interp struct {
 	depth       int
 	unspec      bool
 	valueUnspec bool
+	DeepFails   bool // recursion deeper than the model's limit is a run-time failure, not "non-terminating"
 	loopRet     Val // value carried by a return statement out of a loop body
 	globals     *Env
 	frames      []*frame
@@ -1345,10 +1346,15 @@ func (in *Interp) callFn(fn *Fn, args []Val) (Val, *Raise) {
 	if len(args) < req || len(args) > len(ps) {
 		return nil, raise("args error", "wrong argument count")
 	}
-	in.depth++
-	if in.depth > 200 {
+	if in.depth >= 200 {
+		if in.DeepFails {
+			// sessions: recursion this deep is taken to be unbounded; the implementation ends it
+			// with a stack overflow, a run-time failure of the piece
+			return nil, raise("overflow", "recursion too deep")
+		}
 		panic(budgetExceeded{})
 	}
+	in.depth++
 	defer func() { in.depth-- }()
 	penv := newEnv(fn.Env)
 	for i, p := range ps {
@@ -1685,7 +1691,7 @@ type Session struct {
 }
 
 func NewSession(budget int) *Session {
-	in := &Interp{Budget: budget}
+	in := &Interp{Budget: budget, DeepFails: true}
 	in.globals = newEnv(nil)
 	return &Session{in: in, scope: &scope{vars: map[string]bool{}, consts: map[string]bool{}}}
 }
